@@ -28,6 +28,19 @@ fn u(lines: &[&'static str], trace: &[&'static str]) -> Unit {
     Unit { lines: lines.to_vec(), trace: trace.to_vec(), out: "", reads_stdin: false, stops: None }
 }
 
+/// Ten lines `args <pad><pattern x 900>` (about 9 KB each) with pads of 0..9 ASCII bytes.
+fn long_line_units() -> Vec<Unit> {
+    let mut v = vec![u(&["p a"], &["a:0"])];
+    for pad in 0..10 {
+        let word = format!("{}{}", "a".repeat(pad), "é€😀a".repeat(900));
+        let line: &'static str = Box::leak(format!("args {word}").into_boxed_str());
+        let trace: &'static str = Box::leak(format!("args[{word}]").into_boxed_str());
+        v.push(Unit { lines: vec![line], trace: vec![trace], out: "", reads_stdin: false, stops: None });
+    }
+    v.push(u(&["p b"], &["b:0"]));
+    v
+}
+
 fn scripts() -> Vec<(&'static str, Vec<Unit>)> {
     let rd = |mut x: Unit| {
         x.reads_stdin = true;
@@ -101,6 +114,12 @@ fn scripts() -> Vec<(&'static str, Vec<Unit>)> {
                 u(&["case a in (a) p c1 ;;& (*) p c2 ;; esac"], &["c1:0", "c2:0"]),
                 u(&["p b"], &["b:0"]),
             ],
+        ),
+        (
+            // very long physical lines made of 2-, 3- and 4-byte characters, with every alignment of the
+            // characters relative to any internal buffer boundary: the text must arrive unchanged
+            "long-lines-of-multibyte-characters",
+            long_line_units(),
         ),
         (
             "multi-line-compound",
@@ -382,6 +401,9 @@ pub fn run(tier: Tier) -> i32 {
     let mut cases = vec![];
     for (name, units) in scripts() {
         cases.push(build(name, &units, None));
+        if name.starts_with("long-lines") {
+            continue;
+        }
         for k in 1..units.len() {
             cases.push(build(name, &units, Some(k)));
         }
@@ -397,8 +419,17 @@ pub fn run(tier: Tier) -> i32 {
     let mut items: Vec<(usize, Feed, Option<Vec<Vec<u8>>>)> = vec![];
     for (i, c) in cases.iter().enumerate() {
         items.push((i, Feed::File, None));
-        for ch in chunkings(&c.text, tier.pick(1, 2)) {
-            items.push((i, Feed::Pipe, Some(ch)));
+        if c.name.starts_with("long-lines") {
+            // 90 KB through a 1 KB pipe: one chunk and cuts inside the first long line only
+            items.push((i, Feed::Pipe, Some(vec![c.text.clone().into_bytes()])));
+            for cut in [4095usize, 4096, 4097, 8192] {
+                let b = c.text.as_bytes();
+                items.push((i, Feed::Pipe, Some(vec![b[..cut].to_vec(), b[cut..].to_vec()])));
+            }
+        } else {
+            for ch in chunkings(&c.text, tier.pick(1, 2)) {
+                items.push((i, Feed::Pipe, Some(ch)));
+            }
         }
         if !c.reads_stdin {
             items.push((i, Feed::CmdString, None));
@@ -416,7 +447,8 @@ pub fn run(tier: Tier) -> i32 {
         };
         if *feed == Feed::Pipe {
             chunkings_n.fetch_add(1, Relaxed);
-            let ex = Explore { max_dev: tier.pick(1, 2), taps: false, cap_runs: tier.pick(60, 400) };
+            let big = c.name.starts_with("long-lines");
+            let ex = Explore { max_dev: if big { 0 } else { tier.pick(1, 2) }, taps: false, cap_runs: tier.pick(60, 400) };
             let stats = explore(&setup, &ex, &RunOpts::default(), |r, prefix| {
                 steps.fetch_add(r.steps as u64, Relaxed);
                 if let Some((key, what)) = judge(c, *feed, r) {
@@ -430,7 +462,7 @@ pub fn run(tier: Tier) -> i32 {
             if stats.capped {
                 capped.fetch_add(1, Relaxed);
             }
-            if thorough && chunks.as_ref().is_some_and(|c| c.len() <= 2) {
+            if thorough && !big && chunks.as_ref().is_some_and(|c| c.len() <= 2) {
                 // preemption at syscall boundaries for the single-cut chunkings
                 let ex = Explore { max_dev: 1, taps: true, cap_runs: 300 };
                 let stats = explore(&setup, &ex, &RunOpts::default(), |r, prefix| {
